@@ -14,7 +14,7 @@ META = {
         "NonZeroUsize::new(len).ok_or(EmptySlice)? before building, range = Uniform::new(0, n) with n that same length (half-open), num_choices = that same value; "
         "ChooseCloning::new maps Choose::new's error to EmptySlice; (R18.3) OneOfCloning's fields are private, the struct is constructed only in new, nothing writes its fields and no "
         "&mut self method exists; (R18.4) OneOfCloning::sample returns collection.borrow().get(range.sample(rng)).unwrap().clone(), ChooseCloning::sample = self.0.sample(rng).clone(), "
-        "num_choices impls forward/return the stored count; panic audit: the unwrap and the debug_assert are discharged by R18.2+R18.3. NOT decided: uniformity (rand's Uniform/Choose contracts)."),
+        "num_choices impls forward/return the stored count; panic audit: the unwrap and the debug_assert are discharged by R18.2+R18.3. NOT decided: uniformity (rand's Uniform/Choose contracts). R18.1 also covers the bitstring constructors: Bitstring::random / random_with_probability are the collection generator of num_bits elements over the uniform / BoolGenerator(p) element generator, sampled with the supplied rng."),
     "rules": {
         "R18.1": "Generator::sample = sample_iter(rng).take(self.size).collect(); Bitstring/Plushy forward; constructors store (element_generator, size)",
         "R18.2": "conversion impls: Error = EmptySlice, reach a guarded constructor with self; OneOfCloning::new / ChooseCloning::new guard emptiness; Uniform::new(0, len)",
